@@ -84,6 +84,8 @@ def _check(genome, gs, ge, ts, te, strand, nf, start1, end1, allele, j):
     s, e = r.location.start, r.location.end
     if s < tx_s or e > tx_e:
         return -2                                     # record placed outside the transcript
+    if a == b and ev_s >= tx_e:
+        return -7                                     # insertion at / beyond the transcript's 3' boundary accepted
     ref = [ord(c) for c in r.ref]
     alt = [ord(c) for c in r.alt]
     if e - s != len(ref):
@@ -128,7 +130,8 @@ CODES = {-1: 'an event strictly inside the transcript was rejected',
          -2: 'record placed outside / across the transcript boundary instead of being rejected',
          -3: 'REF length differs from the record location', -4: 'REF differs from the gene sequence',
          -5: 'length change of the record differs from the genomic event',
-         -6: 'applying the record to the gene sequence differs from applying the genomic event to the chromosome'}
+         -6: 'applying the record to the gene sequence differs from applying the genomic event to the chromosome',
+         -7: "an insertion lying on the transcript's 3' boundary (after its last base) was accepted instead of rejected"}
 _BQ = ('chromosome of length 5 (any letters A-Z), gene span and transcript span symbolic, cds_start_NF '
        'symbolic, location symbolic, arbitrary probe position')
 _B = ('chromosome of length 6 (any letters A-Z), gene span and transcript span symbolic, cds_start_NF '
